@@ -521,6 +521,8 @@ func (mr *memRepo) repoInit() error {
 	//#nosec G304 internal method is only called with filenames within admin provided path.
 	layoutBytes, errLayout := os.ReadFile(filepath.Join(mr.path, layoutFile))
 	if errIndex != nil || errLayout != nil || statIndex.IsDir() || !layoutVerify(layoutBytes) {
+		// not an OCI layout, nothing of the directory is served as content of this repo
+		mr.path = ""
 		return nil
 	}
 	// read the index.json
